@@ -349,6 +349,58 @@ mut('c19-unguarded-unwrap', 'C19', 'C19.PANIC[MembershipProof::try_from:unwrap',
 mut('c19-label-len', 'C19', ['C19.G.label_val', 'C19.PANIC[decode_minimized_label'], proto, '''        if input_val.len() > 32 {''', '''        if input_val.len() > 33 {''', 'label value length guard weakened')
 mut('c19-swap-fields', 'C19', 'C19.SIB', proto, '''            past_marker_vrf_proofs: input.past_marker_vrf_proofs.to_vec(),''', '''            past_marker_vrf_proofs: input.future_marker_vrf_proofs.to_vec(),''', 'encoder writes the wrong list')
 
+# ---------------- round 2: variants modelled on sub-agent seeds (see /verif/seeded)
+mut('c01-skip-weakened', 'C01', 'C01.P.skip_unchanged', dirf, '''                        if existing_akd_value == akd_value {''',
+    '''                        if existing_akd_value == akd_value && !existing_akd_value.0.is_empty() {''', 'skip-unchanged weakened by a further condition (seed C01-r1-b)')
+mut('c01-skip-extra', 'C01', 'C01.P.changed_not_skipped', dirf, '''                        if existing_akd_value == akd_value {''',
+    '''                        if existing_akd_value == akd_value || akd_value.0.is_empty() {''', 'a changed value can be skipped')
+mut('c05-o7-conditional', 'C05', 'C05.O7', base, '''    for child in proof.longest_prefix_children.iter() {
+        if child.label != TC::empty_label() && child.label.is_prefix_of(&proof.label) {''',
+    '''    for child in proof.longest_prefix_children.iter() {
+        if proof.longest_prefix.label_len == 0 {
+            continue;
+        }
+        if child.label != TC::empty_label() && child.label.is_prefix_of(&proof.label) {''', 'deepest-anchor guard skipped under a condition (seed C06-r1-a)', also=['C06', 'C07'])
+mut('c07-k2-conditional', 'C07', 'C07.K2', hist, '''            if update_proof.epoch > previous_update_epoch {''',
+    '''            if update_proof.version > 1 && update_proof.epoch > previous_update_epoch {''', 'epoch-order guard under a further condition')
+mut2('c03-limit-before-filter', 'C03', 'C03.S.filter_before_limit', [(dirf, '''        // Ignore states in storage which are ahead of the current directory epoch
+        user_data.retain(|vs| vs.epoch <= current_epoch);
+        // Reverse sort from highest epoch to lowest
+        user_data.sort_by(|a, b| b.epoch.cmp(&a.epoch));
+''', '''        // Reverse sort from highest epoch to lowest
+        user_data.sort_by(|a, b| b.epoch.cmp(&a.epoch));
+'''), (dirf, '''            HistoryParams::MostRecent(n) => user_data.into_iter().take(n).collect::<Vec<_>>(),
+        };
+''', '''            HistoryParams::MostRecent(n) => user_data.into_iter().take(n).collect::<Vec<_>>(),
+        };
+        // Ignore states in storage which are ahead of the current directory epoch
+        user_data.retain(|vs| vs.epoch <= current_epoch);
+''')], 'snapshot filter applied after the MostRecent cut (seed C03-r1-a)')
+mut('c02-child-ok', 'C02', 'C02.ERR.swallow', tn, '''            match get_result {
+                Ok(node) => Ok(Some(node)),
+                Err(StorageError::NotFound(_)) => Ok(None),
+                _ => Err(AkdError::Storage(StorageError::NotFound(format!(
+                    "TreeNode {child_key:?}"
+                )))),
+            }''', '''            Ok(get_result.ok())''', 'child fetch error turned into "no child" (seed C02-r1-b)', also=['C10', 'C13'])
+mut('c02-child-catchall', 'C02', 'C02.ERR.swallow', tn, '''                Err(StorageError::NotFound(_)) => Ok(None),
+                _ => Err(AkdError::Storage(StorageError::NotFound(format!(
+                    "TreeNode {child_key:?}"
+                )))),''', '''                Err(StorageError::NotFound(_)) => Ok(None),
+                _ => Ok(None),''', 'catch-all error arm no longer an error', also=['C10', 'C13'])
+mut('c04-empty-batch', 'C04', 'C04.I.empty_batch_noop', azks, '''        if !azks_element_set.is_empty() {
+            // call recursive batch insert on the root''', '''        if !azks_element_set.is_empty() || self.num_nodes <= 1 {
+            // call recursive batch insert on the root''', 'empty element set still re-hashes the root (seed C04-r1-a)')
+mut('c16-put-conditional', 'C16', 'C16.SIB.write_fills_cache[set]', mgr, '''        if let Some(cache) = &self.cache {
+            cache.put(&record).await;
+        }
+        Ok(())''', '''        if let Some(cache) = &self.cache {
+            if !matches!(record, DbRecord::TreeNode(_)) {
+                cache.put(&record).await;
+            }
+        }
+        Ok(())''', 'write-through skipped for one record kind: the cache keeps the older copy', also=['C10'])
+
 out = [m for m in M if not m.get('disabled')]
 json.dump({'mutants': out}, open(os.path.join(os.path.dirname(os.path.abspath(__file__)), 'mutants.json'), 'w'), indent=1)
 print(len(out), 'mutants')
